@@ -949,7 +949,12 @@ const (
 var kindWeights = []string{kPublic, kPublic, kPublic, kPublic, kPrivate, kPrivate, kPrivate, kLoopback, kLinkLocal, kLinkLocal, kJunk, kJunk, kJunk, kJunk, kUnspec}
 
 func genEntry(t *rapid.T, st style) Entry {
-	kind := gen.Pick(t, kindWeights, "kind")
+	return genEntryOf(t, st, gen.Pick(t, kindWeights, "kind"))
+}
+
+var tailKinds = []string{kPrivate, kPrivate, kPrivate, kJunk, kJunk, kLoopback, kLinkLocal, kUnspec}
+
+func genEntryOf(t *rapid.T, st style, kind string) Entry {
 	switch kind {
 	case kJunk:
 		var s string
@@ -1022,6 +1027,26 @@ func genEntry(t *rapid.T, st style) Entry {
 
 func genListHdr(t *rapid.T, name string, st style) Hdr {
 	h := Hdr{Name: name}
+	if gen.U(t, 3, "shape") == 2 {
+		// proxy-chain shape: anything, then a public client address, then a tail of internal hops and damaged entries
+		var es []Entry
+		for i, n := 0, gen.IntR(t, 0, 3, "nleft"); i < n; i++ {
+			es = append(es, genEntry(t, st))
+		}
+		es = append(es, genEntryOf(t, st, kPublic))
+		for i, n := 0, gen.IntR(t, 1, 4, "ntail"); i < n; i++ {
+			es = append(es, genEntryOf(t, st, gen.Pick(t, tailKinds, "tailkind")))
+		}
+		var line []Entry
+		for i, e := range es {
+			line = append(line, e)
+			if i == len(es)-1 || (len(h.Lines) < 2 && rare(t, 1, 4, "break")) {
+				h.Lines = append(h.Lines, line)
+				line = nil
+			}
+		}
+		return h
+	}
 	nl := gen.Pick(t, []int{0, 1, 1, 1, 2, 2, 3}, "nlines")
 	for i := 0; i < nl; i++ {
 		ne := gen.Pick(t, []int{1, 1, 2, 2, 3, 3, 4, 5}, "nentries")
@@ -1157,6 +1182,9 @@ func genSpec(t *rapid.T, c *Case, kinds []string) Spec {
 		switch s.Kind {
 		case rCount:
 			s.Count = gen.Pick(t, []int{1, 1, 2, 2, 2, 3, 3, 4, 5}, "count")
+			if n := len(flatten(c.hdr(s.Header))); n > 0 && gen.Chance(t, 1, 2, "fitcount") {
+				s.Count = gen.IntR(t, 1, min(n, 5), "count")
+			}
 		case rLeft:
 			s.Limit = gen.Pick(t, []int{1, 2, 2, 3, 3, 4, 5, 6, 100}, "limit")
 			s.Opts = genOpts(t)
@@ -1281,7 +1309,6 @@ func checkAudit(c *AuditCase, count bool) error {
 		} else {
 			stats.Class("audit:global-v6")
 		}
-		stats.NonTrivial("audit|" + c.Strategy + "|" + c.Header + "|" + fmt.Sprint(c.Opts) + "|" + a.String())
 	}
 	want := hit(cs.Hdrs[0].Lines[0][0], nil, 0, c.Strategy)
 	for _, o := range got {
@@ -1427,7 +1454,7 @@ func TestAuditSweep(t *testing.T) {
 	// report the numerically smallest failing address and the span of all of them
 	lo, hi := bads[0], bads[0]
 	for _, b := range bads[1:] {
-		if b.a.Less(lo.a) {
+		if b.a.Less(lo.a) || (b.a == lo.a && lo.c.Header != hXFF && b.c.Header == hXFF) {
 			lo = b
 		}
 		if hi.a.Less(b.a) {
